@@ -8,6 +8,23 @@ COMMON_ASSUME = [
 ]
 
 PROPS = {
+    "C17": {
+        "units": [
+            {"pkg": "./c17", "run": "TestC17Handler|TestC17ThroughProxy", "shards": 4, "shards_thorough": 16, "timeout": 900},
+            {"pkg": "./c17", "run": "TestC17Concurrent", "race": True, "shards": 2, "shards_thorough": 4, "timeout": 900},
+        ],
+        "rule": ("rapid-generated (response, request) pairs: bodies 0 B-1 MiB (compressible text, random, already-gzipped, repeated byte; sizes around 512/4096/32768), written in 0-8 chunks incl. empty writes, with/without "
+                 "explicit WriteHeader, statuses 200-599 and bodiless 204/304, Content-Type matching / not matching / with parameters / absent (sniffed), pre-set Content-Encoding none/gzip/br/identity/deflate, "
+                 "Content-Length set or not; requests GET/POST/HEAD with Accept-Encoding absent/gzip/gzip, deflate/deflate/br/identity/empty and Accept incl. text/event-stream. Run against gzip.NewGzipHandler with a "
+                 "recorder, against HTTPProxy + real upstream behind a real server with a raw client (same exchange with and without compression configured), and with 2-32 goroutines over the shared writer pool "
+                 "under -race. Oracle: compressed only if accepts-gzip and type matches and not pre-encoded; then Content-Encoding gzip, no disagreeing Content-Length, gunzip(body) == inner bytes; otherwise body, "
+                 "Content-Encoding, Content-Length, Content-Type identical to the exchange without the gzip handler; status always preserved; documented converse (must compress) for non-empty 2xx-5xx bodies. "
+                 "Non-trivial = compressed response with body written in >=2 chunks, or pre-encoded body; distinct by (status, type, encoding, chunk sizes, body hash)."),
+        "technique": "rapid property tests with gunzip round-trip and with/without-handler differential; concurrent per-goroutine oracle under the race detector",
+        "level_text": "Generated responses are pushed through the gzip handler (directly, through the full proxy behind a real server, and concurrently) and checked by decompression round trip and by differential against the same exchange without compression. Exploration only.",
+        "level_note": "Accept-Encoding values with q-values and '*' are outside the generated domain (the documentation defines acceptance as 'sets Accept-Encoding: gzip').",
+        "assumptions": COMMON_ASSUME + ["compress/gzip of the standard library is the reference decompressor"],
+    },
     "C15": {
         "units": [
             {"pkg": "./c15", "shards": 8, "shards_thorough": 16, "timeout": 900},
